@@ -102,7 +102,7 @@ def files_hash(paths):
 # ---------------------------------------------------------------- library builds
 class Cfg(object):
     """A library configuration: backend in asm|c64|c32|dxor|generic; key/data/max
-    shares; checker build; instrumentation in release|asan|tsan|nostl|gcov|nopic."""
+    shares; checker build; instrumentation in release|asan|tsan|nostl|gcov|nopic|minimal."""
 
     def __init__(self, backend="asm", ks=4, ds=2, ms=4, checker=False, instr="release"):
         self.backend, self.ks, self.ds, self.ms, self.checker, self.instr = backend, ks, ds, ms, checker, instr
@@ -133,6 +133,8 @@ class Cfg(object):
         elif self.instr == "nostl-asan":
             cflags = ("-g -DASCON_NO_STL -fsanitize=address,undefined -fno-sanitize-recover=undefined "
                       "-fno-sanitize=nonnull-attribute -fno-omit-frame-pointer")
+        elif self.instr == "minimal":
+            a.append("-DMINIMAL=ON")       # the documented static-library-only build (embedded / cross builds)
         elif self.instr == "nopic":
             cflags = "-fno-pic"           # position-dependent objects: the .S files are preprocessed without __PIC__
         elif self.instr == "releaseg":
